@@ -52,7 +52,7 @@ def cap_ok(rank, mr):
 @register
 class TruncatedSvd(Contract):
     name, func, file, cls = 'fn:truncated_svd', 'truncated_svd', 'scikit_tt/utils.py', None
-    props = ('C10', 'C05')
+    props = ('C10', 'C05', 'C04', 'C18')
 
     def defaults(self):
         return {'threshold': 0, 'max_rank': INF, 'rel_truncation': True}
